@@ -335,7 +335,7 @@ where
                             let mut unknown: Option<Fail> = None;
                             for f in fails {
                                 if ctx.survey {
-                                    if !st.survey.contains_key(&f.key) && findings.open_match(prop, &f.key).is_none() {
+                                    if !st.survey.contains_key(&f.key) {
                                         let dir = Path::new(VERIF_ROOT).join("violations").join(prop).join("survey");
                                         let _ = std::fs::create_dir_all(&dir);
                                         let name: String = f.key.chars().map(|c| if c.is_ascii_alphanumeric() { c } else { '_' }).collect();
